@@ -142,7 +142,8 @@ def source_tie(ck):
                      % (vlib.REPO, type(e).__name__, e), {"broken": "translator tools/c07_translate.py", "detail": str(e)}, no_input=True)
         return None, {"translated": False}
     rows = re.findall(r"^  \((\w+), (\d+), (\d+), (None|Some \(mkcc [^;]*?\)\))\)[;]?$", text, re.M)
-    info = {"translated": True, "cc_rows_from_source": len(rows), "constants_from_source": 7}
+    info = {"translated": True, "cc_rows_from_source": len(rows), "constants_from_source": 7,
+            "env_stack_alignment_rows_from_source": len(re.findall(r"^  \((X86|X64|A64), \d+, \d+\)[;]?$", text, re.M))}
     committed = os.path.join(vlib.COQ, "gen", "C07SourceData.v")
     if os.path.exists(committed) and open(committed).read() == text:
         info["snapshot"] = "identical to committed coq/gen/C07SourceData.v (theorems checked with the theories)"
@@ -321,6 +322,15 @@ def run(ck):
             t = cmds[idx].split()
             if int(t[10]) + int(t[12]) > 0x7FFF0000:
                 continue
+            et = ea.split()
+            if int(t[1]) == 2 and len(et) >= 5 and et[3] == "enc":
+                pa_ = c07_oracle.parse_answer(ri[idx])
+                asm_ok = pa_ is not None and not (pa_["P_aerr"] or pa_["E_aerr"])
+                exec_stats["a64_encodability_compared"] = exec_stats.get("a64_encodability_compared", 0) + 1
+                if (int(et[4]) == 0) != asm_ok:
+                    ck.violation("C07/a64/encodability-predicate-vs-assembler", "%s -> the proved encodability predicate (a64_encodable) rejects %s instructions of the "
+                                 "implementation's prolog/epilog, the real Assembler %s them" % (cmds[idx], et[4], "accepts" if asm_ok else "refuses"),
+                                 {"command": cmds[idx], "impl": ri[idx], "machine": ea})
             if code == -1:
                 exec_stats["unparsed"] += 1
             elif code == 0:
@@ -339,6 +349,7 @@ def run(ck):
     stats = {"source_translation": tie_info, "proven_machine_runs": exec_stats, "arch": {}, "cc": {}, "refused_by_callconv": 0, "refused_by_emitter": 0, "asm_error": 0, "has_da": 0, "has_fp": 0,
              "vec_saves": 0, "callee_pops": 0, "oracle_keys": {}}
     disagreements = 0
+    witnesses, deferred = {}, []
     nontrivial = set()
     violations_by_key = {}
     for idx, (c, a) in enumerate(zip(cmds, ri)):
@@ -437,17 +448,44 @@ def run(ck):
             stats["oracle_keys"][k] = stats["oracle_keys"].get(k, 0) + 1
             if ck.violation(k, w, {"command": c, "impl": a, "model": m}):
                 found_input = True
+                if m is not None and canon_impl(a) != m:
+                    witnesses.setdefault(arch, (c, w))      # a frame where implementation != model AND a property is violated
         if m is not None and canon_impl(a) == m and " L ?" in a:
             stats["refusals_compared"] = stats.get("refusals_compared", 0) + 1
         if m is not None and canon_impl(a) != m:
             disagreements += 1
+            if not found_input and pa is not None and stats.get("entry_sweeps", 0) < 40:
+                stats["entry_sweeps"] = stats.get("entry_sweeps", 0) + 1
+                # sharper search (round 6): the implementation differs from the proven model on this frame but the scenario's entry state
+                # shows no violated property - sweep ALL 64 admissible entry stack pointers (a defect may need a particular residue of the
+                # entry sp, e.g. `and sp, -32` must not be a no-op) before giving up on a concrete failing input
+                for slot in range(64):
+                    vs2 = [(k, w) for (k, w) in c07_oracle.judge(c, a, ck.seed, slot=slot) if k != "refused"]
+                    if vs2:
+                        stats["found_by_entry_sweep"] = stats.get("found_by_entry_sweep", 0) + 1
+                        k, w = vs2[0]
+                        if ck.violation(k, w + " [entry sp slot %d of 64, found by the sweep after implementation and model disagreed]" % slot,
+                                        {"command": c, "impl": a, "model": m, "entry_slot": slot}):
+                            found_input = True
+                            witnesses.setdefault(arch, (c, w))
+                        break
             if not found_input:
-                fld = first_diff(canon_impl(a), m)
-                ck.violation("C07/correspondence/" + fld.split(" ")[0],
-                             "implementation and proven model disagree on %r (first differing field: %s); the independent interpreter "
-                             "found no violated property on this frame\n impl : %s\n model: %s" % (c, fld, canon_impl(a)[:700], m[:700]),
-                             {"command": c, "impl": a, "model": m, "broken": "correspondence of Frame model (coq/theories/Frame/FrameModel.v) with /repo"},
-                             no_input=True)
+                deferred.append((arch, c, a, m))
+    # a frame on which implementation and model differ but no property is violated (the differing list is still correct THERE) is reported
+    # together with a frame of the same run on which the same kind of difference DOES violate the property, when there is one
+    for (arch, c, a, m) in deferred:
+        fld = first_diff(canon_impl(a), m)
+        wit = witnesses.get(arch) or (list(witnesses.values())[0] if witnesses else None)
+        txt = ("implementation and proven model disagree on %r (first differing field: %s); the independent interpreter found no violated property on "
+               "this frame for any of the 64 entry stack pointers\n impl : %s\n model: %s" % (c, fld, canon_impl(a)[:700], m[:700]))
+        if wit is not None:
+            ck.violation("C07/correspondence/" + fld.split(" ")[0], txt + "\n failing input of the same run where implementation != model violates the property: %s" % wit[1],
+                         {"command": wit[0], "differs_on": c, "impl": a, "model": m, "broken": "correspondence of Frame model (coq/theories/Frame/FrameModel.v) with /repo"})
+        else:
+            ck.violation("C07/correspondence/" + fld.split(" ")[0], txt,
+                         {"command": c, "impl": a, "model": m, "broken": "correspondence of Frame model (coq/theories/Frame/FrameModel.v) with /repo"},
+                         no_input=True)
+    stats["correspondence_witnesses"] = len(witnesses)
 
     # frames with argument copies (FuncArgsAssignment: register/stack arguments moved into registers or local slots — the API-level form of
     # the allocator's kStackArgToStack copies): judged by the python interpreter AND executed on the proven machine (FrameExec.exec_args_frame)
@@ -465,6 +503,7 @@ def run(ck):
         ck.violation("C07/args/harness-crash", "harness failed on A commands: %s" % (ra_,), {"commands": acmds[:2], "broken": "harness"}, no_input=True)
     else:
         gcmds, gidx, averd = [], [], []
+        kcmds, kidx = [], []
         for i, (c, a) in enumerate(zip(acmds, ra_)):
             v = c07_oracle.judge_args(c, a, ck.seed)
             averd.append(v)
@@ -491,6 +530,16 @@ def run(ck):
                 " ".join(str(x) for x in pa["preserved"]), " ".join(str(x) for x in pa["srsize"]), int(t[5]) & 1, t[12], pa["local_off"], lsz, cleanup,
                 n, " ".join(xt[2:]), ";".join(pa["P"]) or "-", st[3], ";".join(pa["E"]) or "-"))
             gidx.append(i)
+            if True:
+                # round 6: the VERIFIED static checker of the copy sequence (FrameCopies.copies_ok_data; theorem C07_roundtrip_with_copies:
+                # accepted => the round trip holds for EVERY entry state, not only the one the machine run uses)
+                kcmds.append("K %d %d %d %d %s %d %d | %s" % (arch, pa["dirty"][0], pa["preserved"][0], int(t[5]) & 1, t[12], pa["local_off"], lsz, st[3]))
+                kidx.append(i)
+        rk = run_sharded(model, kcmds) if kcmds else []
+        if isinstance(rk, tuple):
+            ck.violation("C07/args/model-crash", "model driver failed on K commands: %s" % (rk,), {"commands": kcmds[:1], "broken": "model driver"}, no_input=True)
+            rk = []
+        kres = dict(zip(kidx, rk))
         rg = run_sharded(model, gcmds) if gcmds else []
         if isinstance(rg, tuple):
             ck.violation("C07/args/model-crash", "model driver failed on G commands: %s" % (rg,), {"commands": gcmds[:1], "broken": "model driver"}, no_input=True)
@@ -501,6 +550,21 @@ def run(ck):
             for (k, w) in keys:
                 stats["oracle_keys"][k] = stats["oracle_keys"].get(k, 0) + 1
                 ck.violation(k, w, {"command": c, "impl": a})
+            if i in kres:
+                kc = int(kres[i].split()[1])
+                sk = "static_checker_a64" if c.split()[1] == "2" else "static_checker_x86"
+                astats[sk] = astats.get(sk, {"accepted (all entry states proved)": 0, "rejected": 0, "outside the copy shapes": 0})
+                astats[sk]["accepted (all entry states proved)" if kc == 1 else "rejected" if kc == 0 else "outside the copy shapes"] += 1
+                if kc != 1:
+                    astats.setdefault("static_checker_not_accepted_examples", [])
+                    if len(astats["static_checker_not_accepted_examples"]) < 4:
+                        astats["static_checker_not_accepted_examples"].append(c)
+                bad = [k for (k, _w) in keys if k.split("/")[-1] in ("preserved-argument-register-clobbered", "callee-saved-not-restored", "wrong-return-address",
+                                                                     "wrong-sp-after-return", "destination-outside-local-area")]
+                if kc == 1 and bad:
+                    # the theorem says this cannot happen: the checker's data (dirty mask, areas) do not describe the implementation's frame
+                    ck.violation("C07/args/static-checker-accepts-failing-frame", "%s -> FrameCopies.copies_ok accepts the copy sequence, the interpreter reports %s" % (c, bad),
+                                 {"command": c, "impl": a, "checker": kres[i]})
             if i in gres:
                 code = int(gres[i].split()[1])
                 if code == 0: astats["machine_ok"] += 1
@@ -572,9 +636,12 @@ def run(ck):
             if canon_impl(ans) != m:
                 comp_stats["disagreements"] += 1
                 if not found:
+                    wit = list(witnesses.values())[0] if witnesses else None
                     ck.violation("C07/correspondence/compiled/" + first_diff(canon_impl(ans), m).split(" ")[0],
-                                 "compiled function %r: its frame %r differs from the proven model\n impl : %s\n model: %s" % (c, fcmd, canon_impl(ans)[:600], m[:600]),
-                                 dict(rep, broken="correspondence of Frame model with the frame the Compiler hands over"), no_input=True)
+                                 "compiled function %r: its frame %r differs from the proven model\n impl : %s\n model: %s%s" % (c, fcmd, canon_impl(ans)[:600], m[:600],
+                                 ("\n failing input of the same run where implementation != model violates the property: %s" % wit[1]) if wit else ""),
+                                 dict(rep, broken="correspondence of Frame model with the frame the Compiler hands over", **({"command": wit[0], "compiled_function": c} if wit else {})),
+                                 no_input=(wit is None))
     stats["compiled_functions"] = comp_stats
 
     # spill-slot layout (rastack.cpp calculate_stack_frame): model vs implementation + independent disjointness monitor
